@@ -206,9 +206,21 @@ def classes():
 _ORIG = {}
 
 
+# diagnosis aid (C10): when set to a set of absence steps, the FIFO task rule is evaluated by the
+# harness with READY entries *at those steps* not counted.  Never set during a deciding run.
+FIFO_NEUTRAL = None
+
+
 def _wrap_sort(name, fn):
     def wrapper(lst, *a, **k):
         r = CUR
+        if FIFO_NEUTRAL is not None and name == "sort_task_list" and a and int(a[0]) == 4:
+            ab = FIFO_NEUTRAL
+
+            def cnt(x):
+                return sum(1 for i, s in enumerate(x.state_record_list) if s.name == "READY" and i not in ab)
+
+            return sorted(lst, key=cnt, reverse=True)
         if r is None or not r.want_sorts:
             return fn(lst, *a, **k)
         inp = list(lst)
